@@ -497,3 +497,17 @@ package locate
 //@   may-panic
 //@   opaque-callee Inc
 //@   ensures staleonly: stale && !old(stale) ==> verOf(item.cachedRegion) > verID.ver
+
+// Gap detection over the regions PD returned for a batch of ranges: no index leaves the range list (for every input, also
+// a region list that covers more ranges than asked), no ranges means no gap, no regions for some ranges means a gap, and a
+// first region that is missing its meta or starts behind the first range's start key is a gap.
+//@ func regionsHaveGapInRanges
+//@   prop C09
+//@   bytes: key
+//@   loop 1 invariant idx: 0 <= checkIdx && checkIdx < len(ranges)
+//@   loop 1 invariant first: rangeindex < 0 ==> checkKey == ranges[0].StartKey
+//@   loop 1 invariant passed: rangeindex >= 0 && regionsInfo[0] != nil ==> regionsInfo[0].Meta != nil && regionsInfo[0].Meta.StartKey <= ranges[0].StartKey
+//@   loop 2 invariant idx: 0 <= checkIdx && checkIdx < len(ranges)
+//@   ensures empty: len(ranges) == 0 ==> !result
+//@   ensures none: len(ranges) > 0 && len(regionsInfo) == 0 ==> result
+//@   ensures first: len(ranges) > 0 && len(regionsInfo) > 0 && regionsInfo[0] != nil && (regionsInfo[0].Meta == nil || regionsInfo[0].Meta.StartKey > ranges[0].StartKey) ==> result
